@@ -60,6 +60,8 @@ theorem setContextCS_success_len (s : St) (c : Nat) (restart : Bool) (r : Nat) (
     split
     · rfl
     · split
+      · rfl
+      split
       · simp only [bcastNow_insts]
         generalize hS : stopRec _ r = S
         have hlen : S.insts.length = s.insts.length := by rw [← hS]; simp
@@ -84,7 +86,9 @@ theorem setContextCS_error_len (s : St) (c : Nat) (r : Nat) (y : Rec)
         cases h : y.err with
         | none => exact absurd h he
         | some _ => rfl
-      simp [this]
+      split
+      · rfl
+      · simp [this]
 
 theorem recordCS_len (s s' : St) (cf : Cfg) (n : Nat) (x : Inst) (dur : Bool)
     (h : recordCS s cf n x dur = some s') : s'.insts.length = s.insts.length := by
